@@ -71,7 +71,8 @@ Definition indexed {A} (l : list A) : list (nat * A) := combine (seq 0 (length l
    Polymorphic in the row type so that the correspondence can carry row indices along. *)
 Definition crop_outside_boxes {A} (get : A -> point) (cfg : sensing_config) (gts : list gt_object)
            (pc : list A) : list A :=
-  fold_left (fun acc g => filter (fun a => box_selected (g_box g) (scale_of cfg g) false (get a)) acc) gts pc.
+  fold_left (fun acc g => let sel := box_selected (g_box g) (scale_of cfg g) false in
+                          filter (fun a => sel (get a)) acc) gts pc.
 
 (* outer loop: only non-empty remainders are appended to pointcloud_failed_non_detection *)
 Fixpoint eval_non_detection {A} (get : A -> point) (cfg : sensing_config) (gts : list gt_object)
@@ -101,7 +102,8 @@ Definition evaluate_frame (cfg : sensing_config) (gts : list gt_object) (cloud :
    box scaled with get_bbox_scale(distance, box_scale_0m, box_scale_100m); empty results are kept *)
 Definition manager_crop {A} (get : A -> point) (cfg : sensing_config) (gts : list gt_object)
            (cloud : list A) (areas : list (list vertex)) : list (list A) :=
-  map (fun area => crop_outside_boxes get cfg gts (filter (fun a => selected area true (get a)) cloud)) areas.
+  map (fun area => let sel := selected area true in
+                   crop_outside_boxes get cfg gts (filter (fun a => sel (get a)) cloud)) areas.
 
 (* the RuntimeErrors of crop_pointcloud surface unchanged *)
 Definition manager_crop_checked {A} (get : A -> point) (ncols : nat) (cfg : sensing_config)
